@@ -273,6 +273,28 @@ class Interp:
                     return ("sym", f"import-time:{fi.qualname}.{name}", "any")
         return self.eval(dnode, st, ctx)
 
+    def _attr_type_from_init(self, cls: ClassInfo, attr: str) -> Any:
+        """Type of an instance attribute the model of the instance does not list, from what __init__ stores there
+        (an annotation, or a constructor call of a repository class): "any" when nothing is found."""
+        for k_ in cls.mro():
+            im_ = k_.methods.get("__init__")
+            if im_ is None or not im_.params:
+                continue
+            for n_ in ast.walk(im_.node):
+                tg_ = n_.targets[0] if isinstance(n_, ast.Assign) and len(n_.targets) == 1 else (n_.target if isinstance(n_, ast.AnnAssign) else None)
+                if not (isinstance(tg_, ast.Attribute) and tg_.attr == attr and isinstance(tg_.value, ast.Name) and tg_.value.id == im_.params[0]):
+                    continue
+                if isinstance(n_, ast.AnnAssign):
+                    return self.type_of_annotation(n_.annotation, k_.module)
+                if isinstance(n_.value, ast.Call):
+                    try:
+                        r_ = self.prog.resolve_expr(k_.module, n_.value.func)
+                    except Exception:  # noqa: BLE001
+                        r_ = None
+                    if r_ and r_[0] == "class" and r_[1].enum is None:
+                        return ("obj", r_[1].key)
+        return "any"
+
     def sym_object(self, st: State, cls: Optional[ClassInfo], name: str, fields: Optional[Dict[str, Term]] = None) -> Term:
         return st.alloc(HeapObj("obj", cls, dict(fields or {}), [], True, name, False))
 
@@ -2867,6 +2889,8 @@ class Interp:
                         for f in (ho.cls.dc_fields() if ho.cls.is_dataclass else []):
                             if f.name == attr and f.annotation is not None:
                                 typ = self.type_of_annotation(f.annotation, ho.cls.module)
+                        if typ == "any":
+                            typ = self._attr_type_from_init(ho.cls, attr)
                     v: Term = ("sym", f"{ho.name}.{attr}", typ)
                     v = self.materialise(v, st)
                     ho.fields[attr] = v
@@ -2880,7 +2904,7 @@ class Interp:
                 if ho.name:
                     # attribute that no modelled constructor sets: state lingering from elsewhere
                     st.events.append(Event("readattr", f"{ho.name}.{attr}", (), (), ctx.loc(node), ctx.fi.key if ctx.fi else "", pc_len=len(st.pc)))
-                    v = ("sym", f"{ho.name}.{attr}", "any")
+                    v = self.materialise(("sym", f"{ho.name}.{attr}", self._attr_type_from_init(ho.cls, attr) if ho.cls is not None else "any"), st)
                     ho.fields[attr] = v
                     return v
                 raise AnalysisError(f"attribute {attr} not set on {self.describe(base, st)} at {ctx.loc(node)}")
